@@ -20,6 +20,8 @@ def callsBelowId (i : CellId) : Expr → Bool
   | .readA _ => true
   | .raise _ => true
   | .try_ a _ b => callsBelowId i a && callsBelowId i b
+  | .tryRe a _ b => callsBelowId i a && callsBelowId i b
+  | .tryFin a b => callsBelowId i a && callsBelowId i b
 def callsBelowIdList (i : CellId) : List Expr → Bool
   | [] => true
   | e :: es => callsBelowId i e && callsBelowIdList i es
@@ -105,6 +107,20 @@ theorem compile_below (ar : CellId → Option Nat) (params : List Val) (n : Node
     split
     · exact compile_below ar params n b k h hc.2 hk hh
     · exact hh _ _
+  | .tryRe a c b, k, h, hc, hk, hh => by
+    simp only [callsBelowId, Bool.and_eq_true] at hc
+    simp only [compile]
+    refine compile_below ar params n a k _ hc.1 hk (fun x e => ?_)
+    show CallsBelow idLt n (if c.catches e = true then compile ar params b (fun _ => h x e) h else h x e)
+    split
+    · exact compile_below ar params n b _ h hc.2 (fun _ => hh _ _) hh
+    · exact hh _ _
+  | .tryFin a b, k, h, hc, hk, hh => by
+    simp only [callsBelowId, Bool.and_eq_true] at hc
+    simp only [compile]
+    exact compile_below ar params n a _ _ hc.1
+      (fun v => compile_below ar params n b _ h hc.2 (fun _ => hk v) hh)
+      (fun x e => compile_below ar params n b _ h hc.2 (fun _ => hh _ _) hh)
 theorem compileArgs_below (ar : CellId → Option Nat) (params : List Val) (n : Node) :
     ∀ (es : List Expr) (k : List Val → Prog) (h : Bool → Err → Prog), callsBelowIdList n.1 es = true →
       (∀ vs, CallsBelow idLt n (k vs)) → (∀ x e, CallsBelow idLt n (h x e)) →
